@@ -86,7 +86,12 @@ def generate(ctx):
     """translator: statistics-field / working-variable tables of the optimiser classes, read from the working tree
     with `ast`, against the model's tables (one `decide` obligation)"""
     driver_translate.generate()
-    return [("Scico.Generated.DriverFields",
+    driver_translate.generate_source()
+    return [("Scico.Generated.DriverSource",
+             "normalised statement lists of Optimizer.solve / __init__, itstat_func_and_object, _all_finite, every Timer and "
+             "ContextTimer method, IterationStats.insert/end/history; signatures with default values; kwargs.pop defaults of "
+             "Optimizer.__init__ - equal to the model's transcription (sourceSkeletons, sourceSignatures, optionDefaults)"),
+            ("Scico.Generated.DriverFields",
              "statistics columns (name, format, attribute expression, per class and sub-problem-solver branch), assembly of the "
              "statistics function, and the arguments of _all_finite in every _working_vars_finite equal the model's tables")]
 
